@@ -31,6 +31,7 @@ RULE = ('HPD matrices (Poisson 1-3D, rotated anisotropic diffusion, weighted gra
         'energy norm of the error propagation.  Non-trivial: >= 2 levels; distinct = distinct configuration.')
 RULE += (' '
          'Smoother family incl. several iterations of Chebyshev / Richardson / block Gauss-Seidel and genuine 2x2 block Gauss-Seidel, dealt out so that each is used as pre- and post-smoother; nonzero right-hand sides with the guess at / near the exact solution (the error map must not depend on b).')
+THOROUGH_ROUNDS = 6
 TRUSTED = ['NumPy/SciPy dense eigen-decompositions on the oracle side', 'C03 (cycle = textbook recursion), C09 (kernels = splittings)']
 PARTIAL = ['complex Hermitian case, Jacobi/Richardson damping bound and Chebyshev: hypothesis checked numerically, not proved']
 NOT_COVERED = ['rounding-error analysis']
